@@ -4,6 +4,8 @@
      R nsim seed maxthr           announces that a block of harness output follows (graph / t / slots / ... / end);
                                   at "end" the driver prints, for the REAL dumped table:
          wf <0|1>                        wf_check (extracted) on the real table
+         po 1 | po 0 edge t1 t2 s | po 0 phase t k s
+                                         phases_ordered_find (extracted) on the real table: the first offender
          replay <ok|none|FAIL ...>       the harness' real-primitive run (sched/events lines) replayed through [step]
          sim <runs> <bad> <steps> <hang> <msg>   nsim random schedules (1..maxthr threads) of the interleaving model on
                                          the real table with dynamic monitors (exactly once, parents first, mutual
@@ -182,6 +184,12 @@ let () =
            let g : graph = List.map Stdlib.fst ts in
            let ig = Array.of_list (List.map Stdlib.snd ts) in
            Printf.printf "wf %d\n" (if wf_check g then 1 else 0);
+           (match phases_ordered_find g with
+           | None -> print_endline "po 1"
+           | Some (PoMissingEdge (a, b, s)) ->
+               Printf.printf "po 0 edge %d %d %d\n" (int_of_nat a) (int_of_nat b) (int_of_nat s)
+           | Some (PoEmptyPhase (t, k, s)) ->
+               Printf.printf "po 0 phase %d %d %d\n" (int_of_nat t) (int_of_nat k) (int_of_nat s));
            (* replay of the real-primitive run *)
            (match (!sched, !events) with
            | Some sc, Some ev -> (
